@@ -50,6 +50,14 @@ for lit in spec.get("mutate", []):
 res = []
 for b in cases:
     r = run(b); r["hex"] = b[:40].hex(); res.append(r)
+# valid dumps with long byte/text payloads (on both sides of 2**16 and 2**20) must load, to supported types only, also as dict keys and set members
+for n in (65535, 65536, 65537, 70000, (1 << 20) + 3):
+    for mk in (lambda n: (b"x" * n,), lambda n: {b"y" * n: 1}, lambda n: frozenset([b"z" * n]), lambda n: ["u" * n, {("t" * n,): None}]):
+        v = mk(n)
+        try: got = loads(dumps(v))
+        except BaseException as e: res.append({"failed": True, "why": f"valid dump with a payload of {n} bytes did not load: {type(e).__name__}: {e!s:.60}", "hex": ""}); continue
+        ok = only_supported(got) and got == v
+        res.append({"failed": not ok, "why": f"valid dump with a payload of {n} bytes loaded to an unsupported type or another value ({type(got).__name__} of {[type(x).__name__ for x in got][:2]})", "hex": ""} if not ok else {"failed": False, "loaded": True, "hex": ""})
 bad = [r for r in res if r["failed"]]
 if prefix_loaded:
     bad.append({"failed": True, "why": f"a strict prefix loaded successfully: {prefix_loaded[:3]}"})
